@@ -62,7 +62,7 @@ REDIS_THEOREMS = {
     "C01": ["redis_conservation", "step_places", "inv_step", "inv_empty", "redis_ack_removes", "redis_nack_dead_letters",
             "redis_reject_origin", "redis_requeue_atomic", "take_marks_processing", "unmark_lists"],
     "C03": ["maintenance_single", "maintenance_not_before", "redis_cancelled_fetch_witness"],
-    "C05": ["ceilSecs_le_secs", "fetchDelayed_due", "redis_never_early", "enqueue_score", "delayed_only_visible_in_delayed",
+    "C05": ["ceilSecs_le_secs", "fetchDelayed_due", "redis_never_early", "redis_due_is_fetched", "enqueue_score", "delayed_only_visible_in_delayed",
             "truncated_score_early_witness"],
     "C12": ["redis_no_expired_delivery", "nack_dead_letters_own_priority", "dead_letters_retrievable"],
     "C14": ["redis_take_race_witness", "redis_take_removes_partial", "take_marks_processing"],
